@@ -1054,6 +1054,13 @@ class AbsInt:
                         t['argvals_deref'] = ad
                     res = self.decide_call(name, argvals, t)
                     t = bl['term']
+                if res is None and name.endswith(('Option::<T>::ok_or_else', 'Option::<T>::ok_or')) and argvals and argvals[0][0] == 'agg' \
+                        and argvals[0][1] == 'core::option::Option':
+                    # Some(v) -> Ok(v); None -> Err(<whatever the closure / argument gives>)
+                    if argvals[0][2] == 'Some':
+                        res = ('agg', 'core::result::Result', 'Ok', argvals[0][3])
+                    else:
+                        res = ('agg', 'core::result::Result', 'Err', (('call', name, argvals, b),))
                 if res is None and len(argvals) == 2 and name.endswith(('PartialEq>::eq', 'PartialEq::eq', 'PartialEq>::ne', 'PartialEq::ne')):
                     # comparison of two known field-less enum values (derived PartialEq compares the discriminants)
                     ab = []
@@ -1061,6 +1068,12 @@ class AbsInt:
                         for _ in range(4):
                             if a_[0] == 'ref' and a_[1] in env:
                                 a_ = env[a_[1]]
+                            elif a_[0] == 'ref':
+                                # a borrow of a field of a known aggregate (`&symbol.scope`)
+                                m_ = re.match(r'^(.*)\.f(\d+)$', a_[1])
+                                base_ = env.get(m_.group(1)) if m_ else None
+                                if base_ is not None and base_[0] == 'agg' and int(m_.group(2)) < len(base_[3]):
+                                    a_ = base_[3][int(m_.group(2))]
                         ab.append(a_)
                     if ab[0][0] == 'enum' and ab[1][0] == 'enum' and ab[0][1] == ab[1][1]:
                         eq_ = ab[0][2] == ab[1][2]
